@@ -55,7 +55,7 @@ def read_rows(path):
 
 def run_session(sess, wdir, idx):
     kc = sess["kernel"]
-    out = {"kid": sess["kid"], "collect": sess["collect"], "abort": sess.get("abort", 0), "traces": sess.get("traces", []), "exc": "ok",
+    out = {"consumed": [], "files": [], "kid": sess["kid"], "collect": sess["collect"], "abort": sess.get("abort", 0), "traces": sess.get("traces", []), "exc": "ok",
            "ncache": sess.get("ncache", 0), "order": kc["order"], "style": kc.get("style", "tf"), "nc": max(kc["extents"].values()),
            "expr0": kc["expr"], "ops0": kc["ops"], "zshape": kc.get("zshape", 1), "tiled": 1 if kc.get("tile") else 0, "plus": 1 if kc["expr"].get("plus") else 0}
     prefix = os.path.join(wdir, f"s{idx}")
@@ -71,6 +71,8 @@ def run_session(sess, wdir, idx):
                 Metrics.setNumCachedUses(sess["ncache"])
             for rank, typ in sess.get("traces", []):
                 Metrics.trace(rank, type_=typ)
+                if sess.get("consume"):
+                    Metrics.trace(rank, type_=typ, consumable=True)
                 files[(rank, typ)] = f"{prefix}-{rank}-{typ}.csv"
         if sess.get("abort"):
             # run part of the kernel and die inside the loop body: no endCollect()
@@ -88,6 +90,11 @@ def run_session(sess, wdir, idx):
             comp = dict(dump.get("Compute", {})) if isinstance(dump, dict) else {}
             out["mul"], out["add"], out["upd"] = int(comp.get("payload_mul", 0)), int(comp.get("payload_add", 0)), int(comp.get("payload_update", 0))
             out["numops"] = [Compute.numOps(dump, "mul") if "Compute" in dump else 0, Compute.numOps(dump, "add") if "Compute" in dump else 0]
+            consumed = {}
+            if sess.get("consume"):
+                for (rank, typ) in files:
+                    got = Metrics.consumeTrace(rank, typ)
+                    consumed[(rank, typ)] = [[int(x) for x in r] for r in got[1:]] if got else []
             Metrics.endCollect()
             out["state_end"] = metrics_state()
             out["files"] = []
@@ -96,6 +103,8 @@ def run_session(sess, wdir, idx):
                 lv = [k for k, v in enumerate(kc["order"]) if kernel.rid(v) == rank]
                 r.update({"rank": rank, "type": typ, "numiters": Compute.numIters(path) if r["exists"] else -1, "level": (lv[0] + 1) if lv else 0})
                 out["files"].append(r)
+                if (rank, typ) in consumed:
+                    out["consumed"].append({"rank": rank, "type": typ, "rows": consumed[(rank, typ)], "filerows": r["rows"]})
     except BaseException as ex:  # noqa: B036
         out["exc"] = "err:" + type(ex).__name__ + ":" + str(ex)[:100]
         out.setdefault("z", {"rank0": 1, "val": 0})
